@@ -48,7 +48,7 @@ def real_backend_leg(wd, traces, quick):
         for k, t in enumerate(srcs):
             tr = os.path.join(wd, f"rocks_{k}.ndjson")
             vp.run_subject([os.path.join(bdb, "eng_persist_real"), "--in", t["cases"], "--out", tr,
-                            "--work", scratch] + (["--max", "400"] if quick else []), timeout=3000)
+                            "--work", scratch] + ["--max", "400" if quick else "4000"], timeout=3000)
             ev = vp.read_ndjson(tr)
             info["cases"] += sum(1 for e in ev if e["e"] == "prog")
             info["restarts"] += sum(1 for e in ev if e["e"] == "restart")
